@@ -64,6 +64,10 @@ func runC05(w *World, r *Report) {
 	r.Rule("C05-R6", "attribution", "the record persisted after an acknowledged pack carries that replicate message's TaskID, CollectionID, CollectionName and PChannelName, and the persist call passes the record's own fields", 5)
 
 	c06R5(w, r, "C05-R2")
+	// the batcher between the stream and the writer keeps arrival order and hands every pack over exactly once:
+	// the checkpoint persisted after a batch names its LAST pack, so reordering or skipping inside the batcher puts the
+	// checkpoint ahead of unacknowledged packs
+	r.importRules(runC14, "C05-", map[string]bool{"C14-R1": true, "C14-R2": true, "C14-R3": true, "C14-R5": true})
 	c12R4(w, r, "C05-R3")
 
 	writeSyms := map[string]int{"HandleReplicateMessage": 2, "HandleOpMessagePack": 1} // name -> index of the error result
